@@ -277,8 +277,12 @@ impl<'input> GrmtoolsSectionParser<'input> {
             Some(m) => {
                 let num_span = Span::new(i + m.start(), i + m.end());
                 let num_str = &self.src[num_span.start()..num_span.end()];
-                // If the above regex matches we expect this to succeed.
-                let num = str::parse::<u64>(num_str).unwrap();
+                // The regex only guarantees that we have digits: the number itself might still be too
+                // big to represent.
+                let num = str::parse::<u64>(num_str).map_err(|_| HeaderError {
+                    kind: HeaderErrorKind::ConversionError("u64", "Number too large"),
+                    locations: vec![num_span],
+                })?;
                 let val = Setting::Num(num, num_span);
                 i = self.parse_ws(num_span.end());
                 Ok((val, i))
